@@ -41,8 +41,8 @@ RULE = ('cases (max_retries, executor, job sequence on one context); every job h
         'and nested operations (every way of creating a dataset / running an action from inside the task, caught or '
         'propagating); lineage = ops below and above the injected stage (map filter flatMap mapPartitions glom persist '
         'cache mapValues sample); 50 job-triggering public methods (every caller of runJob/collect/toLocalIterator in '
-        'rdd.py that fits integer data) classified as whole-partition under the lock / whole-partition after the lock '
-        '(toLocalIterator family) / lazy (take first isEmpty); follow-up jobs fresh or on the same dataset object; '
+        'rdd.py that fits integer data) classified as whole-partition / whole-partition through toLocalIterator '
+        '(evaluated inside runJob since e07529e) / lazy (take first isEmpty); follow-up jobs fresh or on the same dataset object; '
         'exhaustive over the number of failing attempts per partition for <=3 partitions and max_retries 1..4 on three '
         'executors; non-trivial = some attempt fails or some nested operation is attempted; distinct by canonical JSON')
 ASSUMPTIONS = [
@@ -52,14 +52,12 @@ ASSUMPTIONS = [
     'pooled executor in the model correspondence = concurrent.futures.ThreadPoolExecutor; worker processes '
     '(multiprocessing.Pool + cloudpickle) are exercised by the oracle only (extra_checks), with at most one exhausting '
     'partition per job (with several, Pool.map reports whichever fails first in time)',
-    'on the thread pool, nested operations are only generated in partitions up to the first exhausted one, and never '
-    'for the toLocalIterator family: tasks may still run (or run concurrently) while the lock is free (executor race)',
+    'on the thread pool, nested operations are only generated in partitions up to the first exhausted one: tasks of '
+    'later partitions may still be running after the failed job has released its lock (executor race, not modelled)',
     'a job on the dataset object of an earlier job (reuse) is generated locally always, on the free-running pool only '
     'after jobs without an exhausting partition, never on the barrier pool (cached partitions do not reach the barrier)',
     'free-running thread pool: attempt logs of partitions after the first exhausted one are only checked to be '
     'empty (cancelled) or complete',
-    'saveAsTextFile only on the local executor (on a pool, concurrent tasks race in Local.dump: os.makedirs after an '
-    'exists() test raises FileExistsError, which _run_task then retries -- a save defect, not a retry defect)',
     'file-, process- and text-based dataset constructors (textFile, pipe, ...) are not among the nested operations',
 ]
 TRUSTED = ['translator/kernels/c04.py (run_task_kernel, runjob_lock_kernel, rdd_init_kernel, tolocaliterator_kernel)',
@@ -161,8 +159,8 @@ def _strip_tail(res, tail):
     return res[:-len(tail)] if res[-len(tail):] == tail else ('unexpected-tail', res)
 
 
-# class 0: whole partitions, tasks run while runJob holds the lock; 1: whole partitions, tasks run when the
-# generator returned by toLocalIterator() is consumed (after runJob returned); 2: lazy (take / first / isEmpty)
+# class 0: whole partitions; 1: whole partitions through toLocalIterator() (evaluated inside runJob, under the lock,
+# since /repo e07529e; before that the tasks ran after the lock was released); 2: lazy (take / first / isEmpty)
 ACTIONS = [
     ('collect', 0, 'LIST', lambda r, sc: r.collect()),
     ('count', 0, 'COUNT', lambda r, sc: r.count()),
@@ -529,7 +527,7 @@ def oracle_job(maxr, mode, action, ctx, calls, res, logs):
         if isinstance(recs, list):
             for r in recs:
                 if any(o != 0 for o in r[1]):
-                    site = 'toLocalIterator:nested-accepted' if cls == 1 else 'nested:accepted'
+                    site = 'nested:accepted'
                     ops = [NEST_OPS[k][0] for k, _c in parts[i][2]]
                     return (site, f'{name}: partition {i} call {r[0]}: nested operations {ops} -> outcomes {r[1]} '
                                   f'(1 = accepted, 0 = refused with ContextIsLockedException)')
@@ -537,7 +535,7 @@ def oracle_job(maxr, mode, action, ctx, calls, res, logs):
         return oracle_lazy(maxr, action, ctx, calls, res, logs)
     # while the lock is not held a nested operation cannot be refused, hence cannot fail the task (the finding
     # above is reported first); judge the retry clause with what the implementation does
-    held = cls == 0
+    held = True      # the tasks of every job-triggering method run while runJob holds the lock
     skipped = [mc and isinstance(l, list) and not l for mc, l in zip(ctx['maybe_cached'], logs)]
     fe = None
     for i, p in enumerate(parts):
@@ -634,7 +632,7 @@ def kind(case):
     nest = any(p[2] for j in jobs for p in j[4])
     cls = {ACTIONS[j[0]][1] for j in jobs}
     return (f"{['local', 'pool-barrier', 'pool-free'][mode]}/{'fail' if any(fe) else 'ok'}"
-            f"{'/nested' if nest else ''}{'/lazy-action' if 2 in cls else ''}{'/after-lock' if 1 in cls else ''}"
+            f"{'/nested' if nest else ''}{'/lazy-action' if 2 in cls else ''}{'/tolocaliterator' if 1 in cls else ''}"
             f"{'/persist' if any(c in PERSIST_OPS for j in jobs for c in j[3]) else ''}"
             f"{'/reuse' if any(j[5] for j in jobs) else ''}")
 
@@ -679,8 +677,6 @@ def valid(case):
             return False
         if any(c not in OPS for c in list(pre) + list(post)):
             return False
-        if mode and ACTION_NAMES[action] == 'saveAsTextFile':
-            return False
         flat = [x for p in plain_parts(ctx) for x in p]
         if cls != 2 and ACTIONS[action][2] in NEEDS_DATA_KINDS and not flat:
             return False
@@ -689,9 +685,7 @@ def valid(case):
         if cls == 2 and any(c in (4, 5) for c in ctx['post']):
             return False
         ps = ctx['parts']
-        if mode and cls == 1 and any(p[2] for p in ps):
-            return False
-        if mode and cls == 0:
+        if mode and cls != 2:
             fe = first_exhausted(maxr, ps)
             if fe is not None and any(p[2] for p in ps[fe + 1:]):
                 return False
@@ -705,15 +699,10 @@ def fix_job(rng, maxr, mode, job):
     """Enforce the generator restrictions on a fresh job."""
     action, style, pre, post, parts, reuse = job
     parts = [list(p) for p in parts]
-    if mode and ACTION_NAMES[action] == 'saveAsTextFile':
-        action = 0       # concurrent tasks race in Local.dump's directory creation (FileExistsError, then retried)
     cls = ACTIONS[action][1]
     if cls == 2:
         post = [c for c in post if c not in (4, 5)]
-    if mode and cls == 1:
-        for p in parts:
-            p[2] = []
-    if mode and cls == 0:
+    if mode and cls != 2:
         fe = first_exhausted(maxr, [tuple(p) for p in parts])
         if fe is not None:
             for i in range(fe + 1, len(parts)):
@@ -819,11 +808,12 @@ def generate(rng, tier):
                 parts[where] = (parts[where][0], parts[where][1], nest)
                 job = fix_job(rng, maxr, mode, (rng.choice(LOCKED_STRICT + LAZY[1:3]), rng.randrange(2), [], [], parts, 0))
                 cases.append(with_followups(rng, maxr, mode, job))
-    for action in UNLOCKED:      # tasks that run after runJob has returned (local only: see ASSUMPTIONS)
+    for action in UNLOCKED:      # the methods built on toLocalIterator(): nested operations are refused there as well
         for _ in range(1 if quick else 4):
             maxr = rng.randint(1, 3)
+            mode = rng.choice([0, 0, 1, 2])
             parts = [(gen_data(rng, 2), [gen_fault(rng) for _ in range(rng.randint(0, maxr - 1))], gen_nest(rng)) for _ in range(2)]
-            cases.append(with_followups(rng, maxr, 0, fix_job(rng, maxr, 0, (action, rng.randrange(2), [], [], parts, 0))))
+            cases.append(with_followups(rng, maxr, mode, fix_job(rng, maxr, mode, (action, rng.randrange(2), [], [], parts, 0))))
     # 4. every job-triggering method through a permanent and a recovered failure, before/mid/after, both styles
     for action in STRICT:
         for mode in (0, 1, 2) if not quick else (0, rng.choice([1, 2])):
@@ -943,9 +933,7 @@ class ProcDataset(Dataset):
         return logs
 
 
-# (aggregateByKey returns a defaultdict with a local lambda from its tasks: not picklable, fails on worker processes
-# without any fault -- a backend defect, not a retry defect)
-PROC_ACTIONS = [i for i in LOCKED_STRICT if ACTION_NAMES[i] not in ('saveAsTextFile', 'aggregateByKey')]
+PROC_ACTIONS = [i for i in STRICT if ACTION_NAMES[i] != 'saveAsTextFile']   # (the log files share the work directory)
 PROC_NEST = [c for c in NEST_CODES if c in (0, 1, 2, 7, 8, 11, 13, 14, 40, 41, 42, 44)]
 
 
